@@ -49,6 +49,11 @@ def main():
             json.dump(res, open(os.path.join(SEEDED, name, "detection.json"), "w"), indent=1)
             rows.append((name, prop, res))
             print(name, res.get("exit"), res.get("violations", [])[:3], flush=True)
+    rows = []
+    for n in sorted(os.listdir(SEEDED)):
+        dj = os.path.join(SEEDED, n, "detection.json")
+        if os.path.exists(dj):
+            rows.append((n, json.load(open(os.path.join(SEEDED, n, "meta.json")))["property"], json.load(open(dj))))
     with open(os.path.join(SEEDED, "MATRIX.md"), "w") as f:
         f.write("# Seeded changes vs. checks (written by tools/matrix.py; each run on a scratch copy of /repo with the change applied)\n\n")
         f.write("| change | property | check exit | reported as | obligations no longer discharged |\n|---|---|---|---|---|\n")
